@@ -16,3 +16,5 @@ func zzArmMixedDeadlines() {
 }
 
 func zzExpireFirstDeadline() { time.Sleep(3500 * time.Millisecond) }
+
+func zzNewTicker(d time.Duration) *time.Ticker { return time.NewTicker(d) }
